@@ -3,6 +3,7 @@
 from __future__ import annotations
 
 import builtins
+import threading
 import types
 from collections.abc import Callable, Mapping
 from dataclasses import dataclass, field
@@ -21,6 +22,9 @@ from ..util import (
 )
 from .node import Node
 from .synth import synthesize
+
+
+_synthesis_lock = threading.RLock()
 
 
 class TypeResolutionError(TypeError):
@@ -215,12 +219,17 @@ class ModelBuilder:
                 f'Could not find constructor for type {typename!r}, and {synthok=} ',
             )
 
-        if base is None:
-            constructor = synthesize(typename, (), **args)
-        else:
-            constructor = synthesize(typename, (base,), **args)
+        # NOTE: threads that parse with one shared model must agree on the class
+        with _synthesis_lock:
+            if constructor := self._find_existing_constructor(typename):
+                return constructor
 
-        return self._register_constructor(constructor)
+            if base is None:
+                constructor = synthesize(typename, (), **args)
+            else:
+                constructor = synthesize(typename, (base,), **args)
+
+            return self._register_constructor(constructor)
 
     def __getstate__(self) -> dict[str, Any]:
         state: dict[str, Any] = cast(dict, super().__getstate__())
